@@ -13,6 +13,40 @@ def refs_cerr(e):
     return False
 
 
+_DIAG = {}
+
+
+def always_diagnoses(idx, g, depth=0):
+    """Does every path through function g (to a return or the end) write to std::cerr -- directly or through a function that does?"""
+    key = (id(idx), g.id)
+    if key in _DIAG:
+        return _DIAG[key]
+    _DIAG[key] = False          # recursion: assume not
+    if g.body is None or depth > 3:
+        return False
+
+    class C(flow.Client):
+        def expr(self_, e, s_):
+            return [s_ or writes_cerr(idx, e, depth + 1)]
+    o = flow.Flow(C(), idx).run(g.body, {False})
+    exits = set(o.normal) | {s_ for s_, _ in o.ret}
+    _DIAG[key] = bool(exits) and all(exits)
+    return _DIAG[key]
+
+
+def writes_cerr(idx, e, depth=0):
+    if refs_cerr(e):
+        return True
+    for c in calls_in(e):
+        did = callee_of(c)[2]
+        g = idx.func_by_id.get(did) if did else None
+        if g is not None and getattr(g, 'defn', None) and g.body is None:
+            g = g.defn
+        if g is not None and g.body is not None and always_diagnoses(idx, g, depth):
+            return True
+    return False
+
+
 def main_of(idx):
     return idx.func('main')
 
@@ -47,7 +81,7 @@ class HandlerClient(flow.Client):
         return [(h['id'], False)]
 
     def expr(self, e, s):
-        if s[0] is not None and refs_cerr(e):
+        if s[0] is not None and writes_cerr(self.idx, e):
             return [(s[0], True)]
         return [s]
 
